@@ -25,7 +25,8 @@ RULE = ("proof part: protocol theorems + obligations on the instruction paths re
 
 
 def workloads(rnd, tier):
-    rows = [{"a": i % 4, "s": rnd.choice(["x", "y", "z"]), "k": i, "items": [{"x": j} for j in range(i % 3)]} for i in range(8)]
+    rows = [{"a": i % 4, "s": rnd.choice(["x", "y", "z"]), "k": i, "items": [{"x": j} for j in range(i % 3)],
+             "o": {"p%d" % j: j for j in range(1 + i % 4)}} for i in range(8)]
     other = [{"m": i % 3, "b": rnd.choice(["p", "q"])} for i in range(6)]
     doc = {"t": rows, "u": other, "meta": [{"v": 1}, {"v": 2}], "w": [{"k": i, "a": i % 5, "s": "x"} for i in range(44)]}
     queries = [
@@ -59,6 +60,9 @@ def workloads(rnd, tier):
         "SELECT `t[0].s` AS first FROM dual",
         # built-ins that digest / encode their argument: nothing may be shared between two calls
         "SELECT k, HASH(s,'sha256') AS h, HASH(k,'md5') AS hk FROM t",
+        # FUSE blends the keys of an object OF THE DOCUMENT into the row: it reads that object
+        "SELECT k, FUSE(o) FROM t",
+        "SELECT FUSE(o) AS p, a FROM t WHERE a > 0",
         "SELECT k, ASYNC.HASH(s,'sha256') AS h, ENCODE(s,'base64') AS e FROM t",
     ]
     # PARALLEL joins over more distinct keys than there are processors, healthy and with an ON that fails on every pair / on
